@@ -108,6 +108,13 @@ class _Peer:
         return getattr(self._inner, name)
 
 
+_HUNG = object()
+
+
+class _Hung(Exception):
+    pass
+
+
 def run_calls(case):
     """-> observation: {"calls": [...], "stream": [[tick, resolved event]...], "versions": [...]}"""
     import anyio
@@ -117,6 +124,7 @@ def run_calls(case):
     from chuk_mcp.protocol.types.errors import RetryableError, NonRetryableError, VersionMismatchError
 
     obs = {"calls": [], "stream": [], "versions": [], "harness_errors": []}
+    dflt = defaults()
 
     async def main():
         loop = __import__("asyncio").get_running_loop()
@@ -192,12 +200,21 @@ def run_calls(case):
                 state["cur"] = rec
                 op = OPS[spec["op"]]
                 try:
-                    res = await op["call"](client)
+                    # harness guard: a call still running this long after every timeout it runs under
+                    # is cut off and observed as "hung"
+                    guard = (dflt["initialize"] + dflt[spec["op"]] + 4 * H.P_TICKS_DEFAULT) * vloop.TICK + 1.0
+                    res = _HUNG
+                    with anyio.move_on_after(guard):
+                        res = await op["call"](client)
+                    if res is _HUNG:
+                        raise _Hung()
                     rec["outcome"] = "returned"
                     try:
                         rec["marker"] = op["marker"](res)
                     except Exception as ex:  # noqa
                         rec["marker"] = f"<unreadable result {type(res).__name__}: {ex!r}>"
+                except _Hung:
+                    rec["outcome"] = "hung"
                 except TimeoutError:
                     rec["outcome"] = "timeout"
                 except CancelledError:
